@@ -297,6 +297,36 @@ pub fn run(opts: &Opts) -> i32 {
         // every interleaving of their Server calls (local, object store; thorough: git remote)
         super::backend_race::run("C08", &rep, opts.tier);
     }
+    if only.is_none() || only.as_deref() == Some("GitLocal") || only.as_deref() == Some("GitRemote") {
+        // the git backend removes version files that a snapshot covers once their commits are
+        // older than the retention period: a few directed sequences on repositories whose commits
+        // are dated years back (git takes the dates from the environment; nothing else runs now)
+        use Call::*;
+        use ParentSel::*;
+        std::env::set_var("GIT_COMMITTER_DATE", "2020-01-01T00:00:00Z");
+        std::env::set_var("GIT_AUTHOR_DATE", "2020-01-01T00:00:00Z");
+        let a = |h| Add { h, parent: Latest, payload: Payload::Small };
+        let aged: Vec<(BackendKind, usize, Vec<Call>)> = vec![
+            (BackendKind::GitLocal, 1, vec![a(0), a(0), a(0), AddSnapshot { h: 0, at_latest: false }, GetChild { h: 0, of: 1 }, GetChild { h: 0, of: 2 }, GetSnapshot { h: 0 }, a(0), GetChild { h: 0, of: 3 }]),
+            (BackendKind::GitLocal, 1, vec![a(0), a(0), AddSnapshot { h: 0, at_latest: true }, GetSnapshot { h: 0 }, a(0), GetChild { h: 0, of: 2 }, AddSnapshot { h: 0, at_latest: false }, GetChild { h: 0, of: 2 }]),
+            (BackendKind::GitRemote, 2, vec![a(0), a(0), a(0), AddSnapshot { h: 0, at_latest: false }, GetChild { h: 1, of: 1 }, GetChild { h: 1, of: 2 }, GetSnapshot { h: 1 }, a(1)]),
+        ];
+        let n = aged.len();
+        for (kind, handles, seq) in aged {
+            if let Err(e) = run_sequence(kind, handles, &seq) {
+                rep.violation(Violation::new(
+                    format!("{}:{kind:?}:aged", e.split(':').next().unwrap_or("")),
+                    format!("{e} [repository whose commits are dated 2020]"),
+                    json!({"kind": "c08-sequence", "backend": kind, "handles": handles, "sequence": seq, "aged": true}),
+                ));
+            }
+        }
+        std::env::remove_var("GIT_COMMITTER_DATE");
+        std::env::remove_var("GIT_AUTHOR_DATE");
+        rep.add("states", n as u64);
+        rep.add("traces_validated_against_impl", n as u64);
+        println!("[C08] git, commits older than the retention period: {n} directed sequences with snapshots ({:.1}s)", rep.elapsed());
+    }
     for (kind, depth) in plan {
         if only.as_ref().is_some_and(|o| format!("{kind:?}") != *o) {
             continue;
@@ -578,5 +608,9 @@ pub fn replay(case: &serde_json::Value) -> Result<(), String> {
     let kind: BackendKind = serde_json::from_value(case["backend"].clone()).map_err(|e| e.to_string())?;
     let seq: Vec<Call> = serde_json::from_value(case["sequence"].clone()).map_err(|e| e.to_string())?;
     println!("backend {kind:?}: {seq:?}");
+    if case["aged"].as_bool().unwrap_or(false) {
+        std::env::set_var("GIT_COMMITTER_DATE", "2020-01-01T00:00:00Z");
+        std::env::set_var("GIT_AUTHOR_DATE", "2020-01-01T00:00:00Z");
+    }
     run_sequence(kind, case["handles"].as_u64().unwrap_or(1) as usize, &seq).map(|_| ())
 }
